@@ -21,7 +21,7 @@ from sim.world import Run
 
 ID = "C17"
 LEVEL = "exploration"
-RUNS = {"quick": 25000, "thorough": 300000}
+RUNS = {"quick": 25000, "thorough": 1800000}
 BUDGET = {"quick": 100.0, "thorough": 3300.0}
 RULE = ("one run = one seeded history of secured frames from 2-4 senders (real xknx nodes and reference devices) with bus "
         "dup/delay/corrupt faults and attacker frames (replay, lower/equal/higher counter with valid MAC, unknown sender, "
